@@ -34,6 +34,10 @@ ASSUMPTIONS = [
     "operations they cover.  Anything the real OSes do beyond this (history replay, dropped flags, 8.3 names, network shares) is not covered",
     "the emitters are driven by direct calls of queue_events() / events_callback() (what the emitter thread / the native callback do)",
     "POSIX path separators (the layers run on Linux under import shims)",
+    "inode numbers: by default no inode number is re-used during a history (APFS/NTFS behaviour; deleted entries are parked outside the root); "
+    "in the 'reuse' regime (30% of FSEvents histories) an inode freed by a deletion that FSEvents reports with a Removed record may be "
+    "re-used, but only after the batch carrying that record was delivered; inodes freed without any record (the replaced destination of a "
+    "rename, deletions outside the root) are never re-used - the emitter's inode set cannot learn about those",
     "with sticky historic flags (an item's Created flag repeated on its later events) a spurious created event next to the real one is "
     "harmless for the replay; the exact one-event move contracts are judged only on histories rendered without sticky flags",
 ]
@@ -217,6 +221,13 @@ def run_history(b: Batch, platform, cfg, k32=None):
     # FSEvents logic could not tell from a rename)
     u.graveyard = os.path.join(u.base, ".grave")
     os.mkdir(u.graveyard)
+    reuse = platform == "fsevents" and cfg.get("reuse")
+    if reuse:
+        # the other regime: entries deleted inside the root (the deletions FSEvents reports with a Removed record) are really
+        # deleted, so the file system may hand the freed inode number to a later item - but only after the batch that reports
+        # the deletion has been delivered (a delivery follows every freeing operation).  Inodes freed without a Removed
+        # record (the replaced destination of a rename, deletions outside the root) stay allocated as before.
+        b.count("fsevents_histories_with_inode_reuse_allowed")
     trap = LogTrap()
     logging.getLogger().addHandler(trap)
     logging.getLogger("fsevents").addHandler(trap)
@@ -228,6 +239,8 @@ def run_history(b: Batch, platform, cfg, k32=None):
         for q, kk in u.m.t.items():
             u.ever_kinds.setdefault(q, set()).add(kk)
         root_abs = u.abs(u.root_name)
+        if reuse:
+            u.real_delete_below = root_abs
         flags = {"chain": False, "stale_kind": False, "cut_inside_op": False}
         recursive = cfg["recursive"]
         from watchdog.observers.api import ObservedWatch
@@ -258,6 +271,8 @@ def run_history(b: Batch, platform, cfg, k32=None):
 
         last_seg = []
         sticky_created = {}
+        gone = set()
+        reported = set()
 
         def flush():
             nonlocal n_batches, seg
@@ -326,6 +341,26 @@ def run_history(b: Batch, platform, cfg, k32=None):
                     next_id[0] += len(ch)
                     em.events_callback([p for p, _, _ in ch], [i for _, i, _ in ch], [f for _, _, f in ch], ids)
                     stream.extend(q.take())
+                    # invariant at a quiescent point on the anchored state: the set of inodes "known to exist" holds no item
+                    # whose last native record said Removed (such a stale entry swallows the created event of the next item
+                    # that is given this inode number)
+                    last_flag = {}
+                    for _p, _i, _f in ch:
+                        last_flag[_i] = _f
+                    for _i, _f in last_flag.items():
+                        if _f & platshim.F_REMOVED:
+                            gone.add(_i)
+                        else:
+                            gone.discard(_i)
+                    fsv = getattr(em, "_fs_view", None)
+                    if fsv is not None:
+                        b.count("fs_view_invariant_checks")
+                        stale = gone & set(fsv)
+                        if stale and not flags["chain"] and "fsview" not in reported:
+                            reported.add("fsview")
+                            b.violation("fsevents-known-inode-set-keeps-removed-item",
+                                        f"after a delivery FSEventsEmitter._fs_view still holds inode(s) {sorted(stale)[:3]} of items whose last native record carried Removed",
+                                        witness={"platform": platform, "cfg": cfg, "ops": ops, "native": native_log[-4:]}, replay_spec=rs)
 
         def _feed_windows(recs):
             nonlocal n_batches
@@ -346,7 +381,6 @@ def run_history(b: Batch, platform, cfg, k32=None):
             stream.extend(q.take())
 
         consumed = [0]
-        reported = set()
 
         def compare():
             """replay what was delivered since the last comparison and compare with the disk (every delivery point is quiescent)"""
@@ -426,13 +460,17 @@ def run_history(b: Batch, platform, cfg, k32=None):
             _flush()
             compare()
 
+        follow = []
         for _ in range(cfg["n_ops"]):
-            op = gen.next_op()
+            queued = bool(follow)
+            op = follow.pop(0) if follow else gen.next_op()
             if op is None:
                 break
+            if op[0] in ("unlink", "create") and ((op[0] == "unlink") != (u.m.t.get(op[1]) == "f")):
+                continue  # a queued follow-up that no longer applies
             touches, names, hot = op_footprint(u, op)
             again = op[0] in ("rename", "move_out", "rmdir", "rmtree") and (op[1] in pacer.hot or any(h.startswith(op[1] + "/") for h in pacer.hot))
-            if again or pacer.needs_drain(touches, names) or r.random() < cfg.get("cut_p", 0.2):
+            if again or pacer.needs_drain(touches, names) or (not queued and r.random() < cfg.get("cut_p", 0.2)):
                 flush()
                 pacer.drained()
             rec = u.do(op)
@@ -441,6 +479,14 @@ def run_history(b: Batch, platform, cfg, k32=None):
             pacer.mark(hot)
             if op[0] in ("rename", "move_in", "move_out"):
                 boundary_moves += 1
+            if reuse and op[0] == "rename" and rec["pre_kind"].get(op[1]) == "f" and r.random() < 0.4:
+                # renamed, then deleted before the batch is cut (the destination's record carries Renamed|Removed), then a
+                # new file - which may get the freed inode number
+                follow = [("unlink", op[2]), ("create", op[2] + "n" if r.random() < 0.5 else op[1])]
+                b.count("fsevents_rename_delete_create_sequences")
+            if reuse and op[0] in ("unlink", "rmdir", "rmtree"):
+                flush()
+                pacer.drained()
         flush()
         # ---------------------------------------------------------------- oracles
         wit = {"platform": platform, "cfg": cfg, "ops": ops, "native": native_log[-12:], "stream": [fsrig.ev_desc(e) for e in stream][-40:]}
@@ -510,7 +556,10 @@ def run_decoders(b: Batch, r, n):
             wd, mask, cookie = r.randint(1, 2**31 - 1), r.getrandbits(32), r.getrandbits(32)
             recs.append((wd, mask, cookie, name))
             buf += simkernel.pack(wd, mask, cookie, name, pad_to=r.choice([16, 16, 4, 1, 32]))
-        got = list(Inotify._parse_event_buffer(buf))
+        try:
+            got = list(Inotify._parse_event_buffer(buf))
+        except Exception as e:  # noqa: BLE001
+            got = f"raised {type(e).__name__}: {e}"
         b.case()
         b.count("decoder_buffers")
         b.count("decoder_records", nrec)
@@ -522,21 +571,29 @@ def run_decoders(b: Batch, r, n):
         recs = []
         for _ in range(nrec):
             ln = r.choice([1, 1, 2, 3, 7, 8, 64, 255, 300, r.randint(1, 300)])
+            if r.random() < 0.08:
+                # relative paths of a recursive watch may be far longer than one component (up to 32767 units with
+                # long-path support; the 64000-byte read buffer holds them)
+                ln = r.choice([1023, 1024, 1025, 2047, 2048, 2049, 4000, r.randint(1000, 9000)])
+                b.count("decoder_long_names")
             name = "".join(r.choice(alphabet) for _ in range(ln))
             recs.append((r.choice([1, 2, 3, 4, 5]), name))
         if nrec:
             data = platshim.pack_fni(recs, pad_words=r.choice([0, 1, 2, 3]), exact_last=r.random() < 0.5)
             raw = data + b"\0" * r.choice([0, 64])
-            got = _parse_event_buffer(raw, len(data))
+            try:
+                got = _parse_event_buffer(raw, len(data))
+            except Exception as e:  # noqa: BLE001
+                got = f"raised {type(e).__name__}: {e}"
             b.case()
             b.count("decoder_buffers")
             if got != recs:
-                bad = [(g, w) for g, w in zip(got, recs) if g != w]
+                bad = [(g, w) for g, w in zip(got, recs) if g != w] if isinstance(got, list) else []
                 if len(got) == len(recs) and bad and all(w[1].startswith("﻿") and g == (w[0], w[1][1:]) for g, w in bad):
                     mech = "winapi-decoder-strips-leading-bom"
                 else:
                     mech = "winapi-decoder-roundtrip"
-                b.violation(mech, f"decoded {[(a, n[:12]) for a, n in got][:4]!r} != encoded {[(a, n[:12]) for a, n in recs][:4]!r}",
+                b.violation(mech, f"decoded {([(a, n[:12]) for a, n in got][:4] if isinstance(got, list) else got)!r} != encoded {[(a, n[:12]) for a, n in recs][:4]!r}",
                             witness={"records": [(a, n) for a, n in recs], "got": got}, replay_spec=None)
             if nrec >= 2:
                 b.nontrivial(["win", repr(recs)[:80], it])
@@ -546,6 +603,7 @@ def make_cfg(r, seed, platform):
     cfg = {"seed": seed, "recursive": r.random() < 0.7, "n_ops": r.randint(5, 18), "n_root": r.randint(1, 5), "n_out": r.randint(2, 4), "cut_p": r.choice([0.0, 0.2, 0.5])}
     if platform == "fsevents":
         cfg["sticky"] = r.random() < 0.35
+        cfg["reuse"] = r.random() < 0.3
     if platform == "windows":
         cfg["parent_mod"] = r.random() < 0.5
         cfg["split_rename"] = r.random() < 0.2
